@@ -12,7 +12,8 @@ list; nothing is drawn at random.
 """
 import itertools
 
-PRELUDE = """int a, b, c, *p, v[4];
+PRELUDE = """#include <stdbool.h>
+int a, b, c, *p, v[4];
 struct S { int m; } s, *q;
 int f(int, int);
 int g(void);
@@ -118,7 +119,7 @@ def join(tokens):
 # A 'body' is ('braced', [stmts]) or ('bare', stmt).
 
 LEAVES0 = [("expr", "a = 1;"), ("decl", "int c1 = a * b;"), ("empty",), ("expr", "f(a, b);"), ("ret",)]
-LEAVES1 = [("expr", "b = 2;"), ("decl", "int c2 = b;")]
+LEAVES1 = [("expr", "b = 2;"), ("decl", "int c2 = b;"), ("ret",)]
 LEAVES2 = [("expr", "b = 4;"), ("decl", "int c3 = a;")]
 
 
@@ -152,6 +153,11 @@ def stmts(depth, width, top=True):
             for b1 in small:
                 for b2 in small:
                     res.append(("ifelse", b1, b2))
+            if d > 1:
+                # every body as then-branch (dangling-else shapes: a braced body ending in an else-less if)
+                for b1 in bodies[8:]:
+                    for b2 in (("bare", ("expr", "b = 5;")), ("braced", [("expr", "b = 6;")])):
+                        res.append(("ifelse", b1, b2))
             for b in bodies[:6]:
                 res.append(("forx", b))
             for x in sub[:4]:
@@ -298,9 +304,9 @@ DECLS_C = [
     ("longints", "unsigned long long int ull;\nlong long ll;\nsigned char sc;\nunsigned short int usi;\nlong unsigned int lui;\nshort int si;\n"),
     ("casts", "int cf(double dd, void *pp)\n{\n    int r = (int)dd;\n    char *cp = (char *)pp;\n    r += (int)sizeof(int) + (int)sizeof r;\n    return r + *(int *)pp + cp[0];\n}\n"),
     ("goto", "int gf(int n)\n{\n    if (n)\n        goto out;\n    n++;\nout:\n    return n;\n}\n"),
-    ("infinite", "void lf(void)\n{\n    for (;;)\n    {\n        break;\n    }\n    while (1)\n    {\n        break;\n    }\n    do\n    {\n        break;\n    } while (1);\n}\n"),
+    ("infinite", "#include <stdbool.h>\nvoid lf(void)\n{\n    for (;;)\n    {\n        break;\n    }\n    while (1)\n    {\n        break;\n    }\n    do\n    {\n        break;\n    } while (1);\n}\n"),
     ("returns", "int r1(int x)\n{\n    return (x);\n}\nint r2(int x)\n{\n    return (x) + 1;\n}\nvoid r3(void)\n{\n    return;\n}\nint r4(int x)\n{\n    return x ? 1 : 2;\n}\n"),
-    ("semis", "struct Q { int z; };;\nint sf(void)\n{\n    int k = 0;;\n    for (;;) { break; };\n    return k;\n};\n"),
+    ("semis", "#include <stdbool.h>\nstruct Q { int z; };;\nint sf(void)\n{\n    int k = 0;;\n    for (;;) { break; };\n    return k;\n};\n"),
     ("boolexpr", "int bf(int x, int y, int z)\n{\n    if (x == 1 && y != 2 || z)\n        return 1;\n    return x < y == z > x;\n}\n"),
     ("ternary", "int tf(int x, int y)\n{\n    return x ? y : x ? 1 : 2;\n}\n"),
     ("strings", "const char *s1 = \"a\" \"b\";\nconst char *s2 = \"tab\\there\";\nconst char s3[] = \"quote\\\"q\";\nint ch = '\\'';\nconst char *s4 = \"trailing   \";\n"),
@@ -327,8 +333,43 @@ DECLS_CPP = [
 ]
 
 
+def intspell_unit():
+    """every valid spelling order of integer-type specifiers with a qualifier/storage keyword at every position"""
+    combos = []
+    for sign in ("", "unsigned", "signed"):
+        for size in ("", "short", "long", "long long"):
+            for base in ("", "int", "char"):
+                if base == "char" and size:
+                    continue
+                if not (sign or size or base):
+                    continue
+                combos.append([x for x in (sign, size, base) if x])
+    combos.append(["long", "double"])
+    combos.append(["double"])
+    lines = []
+    n = 0
+    import itertools
+    for c in combos:
+        perms = set(itertools.permutations(c)) if len(c) <= 2 else {tuple(c), (c[1], c[0]) + tuple(c[2:]), (c[0], c[2], c[1]) if len(c) > 2 else tuple(c)}
+        for pm in sorted(perms):
+            if "long long" in pm and False:
+                continue
+            for q in ("", "const", "volatile", "static"):
+                slots = range(len(pm) + 1) if q else [0]
+                for pos in slots:
+                    if q == "static" and pos != 0:
+                        continue
+                    words = list(pm)
+                    if q:
+                        words.insert(pos, q)
+                    init = " = 1" if q == "const" else ""
+                    lines.append("%s w%d%s;" % (" ".join(words), n, init))
+                    n += 1
+    return ("intspell", ("\n".join(lines) + "\n").encode())
+
+
 def decl_units(lang="C"):
-    out = [(n, s.encode()) for n, s in DECLS_C]
+    out = [(n, s.encode()) for n, s in DECLS_C] + [intspell_unit()]
     if lang == "CPP":
         out = [(n, s.encode()) for n, s in DECLS_C if n not in ("arrays", "struct")] + [(n, s.encode()) for n, s in DECLS_CPP]
     return out
